@@ -43,6 +43,12 @@ structure Facts where
   /-- list `+` accepts a frozen list as its right operand (`pyList.Operator`, case Add: a branch on
       `operand.(pyFrozenList)`; without it the sum fails with "Cannot add list and list") -/
   addAcceptsFrozen : Bool := true
+  /-- `sorted(reverse=True)` sorts ascending and then reverses the result (`slices.Reverse`), instead of sorting with
+      the flipped comparison: tied elements then come out in reversed original order -/
+  sortedRevAfter : Bool := false
+  /-- `sorted` uses a stable sort function (`sort.SliceStable`, `slices.SortStableFunc`); with `sort.Slice` the order
+      of tied elements is the original one only up to 12 elements (insertion sort), unspecified beyond -/
+  sortedStable : Bool := false
 
 inductive Val
   | int (n : Int)
@@ -582,22 +588,20 @@ def rangeElems (a b c : Int) : Nat → List Val
   | f + 1 => if a < b then .int a :: rangeElems (a + c) b c f else []
 
 /-- Stable insertion sort (what `sort.Slice` does for n ≤ 12), `less` may fail. -/
-def insertBy (less : Val → Val → EM Bool) (x : Val) : List Val → EM (List Val)
+def insertBy {α : Type} (less : α → α → EM Bool) (x : α) : List α → EM (List α)
   | [] => pure [x]
   | y :: ys => do
     -- insert after all elements that are not greater than x (stability)
     if ← less x y then pure (x :: y :: ys) else do pure (y :: (← insertBy less x ys))
 
-def sortBy (less : Val → Val → EM Bool) : List Val → EM (List Val)
+def sortBy {α : Type} (less : α → α → EM Bool) : List α → EM (List α)
   | [] => pure []
   | x :: xs => do let s ← sortBy less xs; insertBy less x s
 
-/-- stable sort built from the back would reverse ties; sort front to back instead -/
-def stableSort (less : Val → Val → EM Bool) (l : List Val) : EM (List Val) := do
+/-- Insertion sort front to back, every element placed after the elements that are not greater: what
+    `sort.Slice` does on up to 12 elements (`insertionSortLessFunc`), and a stable sort. -/
+def stableSort {α : Type} (less : α → α → EM Bool) (l : List α) : EM (List α) := do
   let r ← sortBy (fun a b => less a b) l.reverse
-  -- sortBy inserts each earlier element *before* equal later ones when processing the reversed list:
-  -- inserting x into sorted s places x before the first y with x < y, i.e. after equal elements already there;
-  -- elements already there come later in the reversed input = earlier in the original.  So ties keep order.
   pure r
 
 def isConstExpr : Nat → Expr → Bool
